@@ -1,6 +1,8 @@
 package engine
 
 import (
+	"fmt"
+
 	"verif/lib"
 )
 
@@ -50,6 +52,18 @@ func runC02(env *lib.Env, rep *lib.Report) {
 	for _, seed := range reduced {
 		cfgs = append(cfgs, histCfg{Name: "leaf3-int3/" + seed, Opt: worldOpt{Leaf: 3, Internal: 3}, Seed: seed, Alpha: alpha, Depth: d,
 			TickChoice: true, Reopen: true, Crash: true, FinalCrash: true})
+	}
+	// three-level trees at leaf capacity 5/6, every alignment of the right-most leaf (9..30 seed rows): a row is
+	// inserted, deleted and its tombstone moved by a leaf split under a root older than the row; then flush or
+	// not, crash, recovery (the log is replayed against pages that have moved on)
+	for n := 9; n <= 30; n++ {
+		for _, caps := range [][2]int{{5, 3}, {6, 4}} {
+			if !env.Thorough() && (n+caps[0])%2 == 1 {
+				continue
+			}
+			cfgs = append(cfgs, histCfg{Name: fmt.Sprintf("leaf%d-int%d/t1x%d-single-rows", caps[0], caps[1], n), Opt: worldOpt{Leaf: caps[0], Internal: caps[1]}, Seed: singleRowSeed(n),
+				Alpha: alphaOpt{Tables: []string{"t1"}, Inserts: []int{1, 2}, Deletes: true, LastDelete: true}, Depth: d + 1, TickChoice: true, FinalCrash: true})
+		}
 	}
 	rep.Bounds["depth"] = d
 	rep.Bounds["crash bound (intermediate crash/recover cycles; every history additionally ends in a crash)"] = bound
